@@ -1220,6 +1220,24 @@ class Interp:
             self.exec_stmt(s, cfr)
         if any(getattr(b, "extern", False) and getattr(b, "qual", "") in ("enum.Enum", "enum.IntEnum", "enum.StrEnum") for b in c.mro):
             self._make_enum(c)
+        # class creation hooks, in CPython's order: __init_subclass__ of the nearest base that defines one (an implicit class method,
+        # called from type.__new__), then the metaclass's own __init__; a user __new__ / __prepare__ on the metaclass is not modelled
+        for b in c.mro[1:]:
+            f = b.dict.get("__init_subclass__") if isinstance(b, ClassV) else None
+            if f is not None:
+                f = getattr(f, "func", f) if not isinstance(f, Func) else f
+                if not isinstance(f, Func):
+                    raise Unknown(f"class {st.name}: __init_subclass__ of {b.name} is not a plain function")
+                self.call(f, [c], {})
+                break
+        meta_eff = getattr(c, "meta", None) or meta
+        if isinstance(meta_eff, ClassV):
+            for hook in ("__new__", "__prepare__"):
+                if isinstance(meta_eff.lookup(hook)[0], Func):
+                    raise Unknown(f"class {st.name}: metaclass {meta_eff.name} defines {hook} (not modelled)")
+            mi = meta_eff.lookup("__init__")[0]
+            if isinstance(mi, Func):
+                self.call(mi, [c, st.name, Seq(list(bases) if st.bases else [], "tuple"), DictV([[k_, v_] for k_, v_ in c.dict.items()])], {})
         if st.decorator_list:
             v = c
             for d in reversed(st.decorator_list):
